@@ -2,6 +2,12 @@ package main
 
 func dispatchMore(mode string, lines []string) bool {
 	switch mode {
+	case "lex":
+		runLex(lines)
+		return true
+	case "decomp":
+		runDecomp(lines)
+		return true
 	case "writerep":
 		runWriteRep(lines)
 		return true
